@@ -3,13 +3,14 @@
 
 mod arc;
 mod cview;
+mod vec;
 
 #[cfg(not(miri))]
 #[global_allocator]
 static GLOBAL: simcore::alloc::SimAlloc = simcore::alloc::SimAlloc;
 
 fn main() {
-    let engines: Vec<&dyn simcore::Engine> = vec![&arc::ArcEngine];
+    let engines: Vec<&dyn simcore::Engine> = vec![&arc::ArcEngine, &vec::VecEngine];
     let code = simcore::worker::worker_main(&engines);
     if code != 0 {
         std::process::exit(code);
